@@ -172,6 +172,34 @@ def known_findings(pid):
     return out
 
 
+def source_fingerprint():
+    """sha256 over /repo's src/ tree and Cargo.toml (the files a change to the crate can touch)"""
+    h = hashlib.sha256()
+    files = [os.path.join(REPO, "Cargo.toml")]
+    for root, dirs, fns in os.walk(os.path.join(REPO, "src")):
+        dirs.sort()
+        files += [os.path.join(root, fn) for fn in sorted(fns)]
+    for f in files:
+        try:
+            h.update(os.path.relpath(f, REPO).encode() + b"\0" + open(f, "rb").read() + b"\0")
+        except OSError:
+            pass
+    return h.hexdigest()
+
+
+def source_changed():
+    """True when /repo's sources differ from the tree these checks were last validated on (baseline_src.sha256, committed).
+    A changed tree is searched more deeply: the case generators run at their thorough sizes even in the quick tier."""
+    env = os.environ.get("VERIF_DEEP")
+    if env is not None and env != "":
+        return env not in ("0", "false", "no")
+    try:
+        base = open(os.path.join(VERIF, "baseline_src.sha256")).read().split()[0]
+    except Exception:
+        return False
+    return base != source_fingerprint()
+
+
 def main():
     args = sys.argv[1:]
     if not args:
@@ -213,13 +241,15 @@ def main():
             "samples": [], "histogram": {}, "configs": []}
     rng = random.Random(seed * 1000003 + int(hashlib.sha1(pid.encode()).hexdigest()[:6], 16))
     configs = P.get("configs_thorough" if tier == "thorough" else "configs", [(None, "chk")])
+    deep = (tier != "thorough") and source_changed()
+    gen_tier = "thorough" if deep else tier
     # generators that need private boundaries (motion profiles) ask the freshly built default harness
     cases.HARNESS_BIN = build_harness(configs[0][0], log)
     if replay:
         rp = json.load(open(replay))
         lines = rp.get("cases", [])
     else:
-        lines = load_corpus(pid) + P["gen"](rng, tier)
+        lines = load_corpus(pid) + P["gen"](rng, gen_tier)
     driver = os.path.join(LEAN, ".lake", "build", "bin", "driver")
     kf = known_findings(pid)
     extra = None
@@ -355,6 +385,8 @@ def main():
                                "informational_model_disagreements": corr.get("informational_model_disagreements", 0),
                                "drift_outside_owned_observables": corr["drift"],
                                "owned_observables": sorted(P["mask"]), "tolerance": P.get("tol")},
+            "case_generation": ("thorough sizes: /repo's sources differ from the validated baseline (baseline_src.sha256)" if deep
+                                else "%s sizes" % tier),
             "input_distribution": dict(sorted(corr["histogram"].items(), key=lambda kv: -kv[1])[:40]),
             "known_findings_hit": len(known_hits),
             "extra": (extra or {}).get("evidence"),
